@@ -17,6 +17,7 @@ EXPLANATION = (
     "comments are dropped; (R5) a def is re-parsed from inspect.getsource(callable) itself; (R6) the same-line candidate scan stops only at "
     "a logical NEWLINE token (not at physical line breaks inside brackets), so every lambda of the bracketed expression is a candidate."
     " (R7) the token search looks for `def` only when the callable handed in is not a lambda (callable.__name__ != \"<lambda>\"), so a lambda on the line of a one-line def or after a decorator is not mistaken for the function; (R8) re-aligning the source of a def removes at most each line's own leading blanks."
+    " (R4, as of round 10) one counter per bracket kind or one nesting depth, moved by *operator* tokens only (the literal part of an f-string can be exactly one bracket)."
 )
 NOT_DECIDED = "that the tokenizer heuristic finds the right lambda for every source layout, and that every documented layout is recovered without error (both quantify over source text fed to a line-number-keyed heuristic)."
 
